@@ -6,6 +6,7 @@ import (
 	"errors"
 	"io"
 	"sync"
+	"time"
 
 	"github.com/caddyserver/caddy/v2"
 
@@ -26,12 +27,53 @@ type Event struct {
 type Trace struct {
 	mu     sync.Mutex
 	Events []Event
+	notify chan struct{}
 }
 
 func (t *Trace) Add(e Event) {
 	t.mu.Lock()
 	t.Events = append(t.Events, e)
+	if t.notify != nil {
+		close(t.notify)
+		t.notify = nil
+	}
 	t.mu.Unlock()
+}
+
+// Snapshot returns a copy of the events recorded so far.
+func (t *Trace) Snapshot() []Event {
+	t.mu.Lock()
+	defer t.mu.Unlock()
+	return append([]Event(nil), t.Events...)
+}
+
+// WaitFor blocks until an event of the given kind and id has been recorded (by another
+// goroutine) or the watchdog expires; the watchdog is a harness safety net, never an oracle.
+func (t *Trace) WaitFor(kind, id string, watchdog time.Duration) bool {
+	dl := time.Now().Add(watchdog)
+	for {
+		t.mu.Lock()
+		for _, e := range t.Events {
+			if e.Kind == kind && e.ID == id {
+				t.mu.Unlock()
+				return true
+			}
+		}
+		if t.notify == nil {
+			t.notify = make(chan struct{})
+		}
+		ch := t.notify
+		t.mu.Unlock()
+		rem := time.Until(dl)
+		if rem <= 0 {
+			return false
+		}
+		select {
+		case <-ch:
+		case <-time.After(rem):
+			return false
+		}
+	}
 }
 
 const traceVar = "h_trace"
